@@ -200,6 +200,14 @@ def gen_context(ctx, idx, tool):
                 lines.append(rng.choice(gpool if syntax == "glob" else rpool))
         if not any(l.startswith("syntax: glob") for l in lines) and rng.random() < 0.6:
             lines = ["syntax: glob"] + [rng.choice(gpool) for _ in range(rng.randint(1, 4))] + lines
+        if rng.random() < 0.5:
+            # `**/x` also means x directly in the repository root: the entries the scenario speaks about exist there and deeper
+            sc = rng.choice([["**/name"], ["**/tmp1", "**/*.o"], ["**/secret.txt"], ["**/README", "src/**/x.txt"], ["**/a+b"]])
+            lines = ["syntax: glob"] + sc + lines
+            for nm_ in ("name", "tmp1", "out.o", "secret.txt", "README", "a+b", "src/sub/name", "src/tmp1", "src/sub/secret.txt", "src/README", "src/sub/x.txt", "src/a+b"):
+                os.makedirs(os.path.dirname(os.path.join(top, nm_)), exist_ok=True)
+                if not os.path.lexists(os.path.join(top, nm_)):
+                    open(os.path.join(top, nm_), "w").close()
     with open(os.path.join(top, TOOLS[tool]["file"]), "w") as f:
         f.write("\n".join(lines) + "\n")
     # configuration homes: this tool on / the OTHER tool on (must not switch this one on) / both
@@ -424,10 +432,10 @@ def run(ctx):
                 ctx.violation("correspondence-mismatch", "%s: model.Ignore differs from the real filters (regex texts differing: %d, verdicts differing: %d, model vs Coq reference: %d): %s"
                               % (tool_, c_["filter_text_diff"], c_["model_vs_real"], c_["spec_vs_model"], "; ".join(l for l in itxt.splitlines() if l.startswith(("TEXT", "VERDICT", "MODEL")))[:600]),
                               input={"tool": tool_, "seed": ctx.seed}, concrete=False, correspondence="search_upstream_* / matches_*_filter (harness) vs model.Ignore")
-            elif c_["pyref_vs_real"] or c_["spec_vs_pyref"]:
+            if c_["pyref_vs_real"] or c_["spec_vs_pyref"]:      # concrete (ignore file, path) pairs on which the real filter contradicts the reference rule
                 ctx.violation("impl-violates-spec", "%s: the real matches_*_filter differs from the reference rule on %d generated (ignore file, path) pairs: %s"
                               % (tool_, c_["pyref_vs_real"], "; ".join(l for l in itxt.splitlines() if l.startswith(("PYREF", "SPEC")))[:600]), input={"tool": tool_, "seed": ctx.seed})
-            else:
+            if not (c_["filter_text_diff"] or c_["model_vs_real"] or c_["spec_vs_model"] or c_["pyref_vs_real"] or c_["spec_vs_pyref"]):
                 st["agreed"] += c_["verdicts"]
     # recorded finding F53: replay the witness
     from .common import load_known
